@@ -89,3 +89,20 @@ package data
 //@   modifies fresh mapof(map[string]IItem)
 //@   emits Call(code("data|IFlowDataLocator.CloneVariables"), this)
 //@   ensures result != nil && fresh(result)
+
+// An item's value has the Go type its item type promises (string, float64, bool for the three scalar item types the
+// XPath engine reads).  The only implementation in the repository is *schema.Value, whose ValueFor is proved to do so
+// (C16); for other implementations this is the interface's contract: assumed.
+//@ func IItem.Type
+//@   assumed
+//@   pure
+//@   modifies nothing
+//@   flag emits none
+//@ func IItem.Value
+//@   assumed
+//@   pure
+//@   modifies nothing
+//@   flag emits none
+//@   ensures this.Type() == schema.ItemTypeString ==> is(result, string)
+//@   ensures this.Type() == schema.ItemTypeFloat ==> is(result, float64)
+//@   ensures this.Type() == schema.ItemTypeBoolean ==> is(result, bool)
